@@ -504,9 +504,11 @@ class PassiveState(State):
                     "https://github.com/Budapest-Quantum-Computing-Group/piquasso/issues"  # noqa: E501
                 )
 
+            # NOTE: `self.d` and the cutoff are already reduced by the postselected modes
+            # and photons, whereas the basis is built on all the modes.
             occupation_numbers = get_postselected_fock_basis(
-                d=self.d,
-                cutoff=self._config.cutoff,
+                d=self.total_number_of_modes,
+                cutoff=self._config.cutoff + sum(self._get_postselected_photons()),
                 postselected_modes=self._get_postselected_modes(),
                 postselected_photons=self._get_postselected_photons(),
             )
